@@ -27,16 +27,18 @@ def comment_line(rng, cm):
 
 def gen(rng, tier):
     n = 1500 if tier == "quick" else 60000
-    asts = []
+    asts = []; empties = []
     for _ in range(n):
         dl = rng.choice(grammar.DELIMS); cm = rng.choice(grammar.COMMENTS)
+        empty_set = rng.random() < 0.1        # the empty comment set stands for "#"
+        if empty_set: cm = b"#"
         ls = [l for l in grammar.gen_file(rng, dl, cm, maxlines=8) if l[0] != "T"]
         # blank lines with blanks are only allowed where no entry precedes; drop them to keep the file conventional
         ls = [l for l in ls if not (l[0] == "B" and l[1])]
-        asts.append((dl, cm, ls))
+        asts.append((dl, cm, ls)); empties.append(empty_set)
     exp = gramlib.expected_of(asts)
     out = []
-    for (dl, cm, ls), e in zip(asts, exp):
+    for (dl, cm, ls), e, empty_set in zip(asts, exp, empties):
         lines = e["bytes"].split(b"\n")[:-1] if e["bytes"] else []
         # insert at 1..3 random points (thorough: every point, one file each)
         points = list(range(len(lines) + 1))
@@ -51,14 +53,15 @@ def gen(rng, tier):
         # single-line-value files there
         indented = any(l[0] in ("K", "S") and l[1] for l in ls)
         py, jn = (rng.random() < 0.1 and not indented), rng.random() < 0.1
-        cmds = [gens.parse_cmd(0, b"/g/f.conf", e["bytes"], dl, cm, py, jn), "getall 0"]
+        pcm = b"" if empty_set else cm
+        cmds = [gens.parse_cmd(0, b"/g/f.conf", e["bytes"], dl, pcm, py, jn), "getall 0"]
         for i, v in enumerate(variants):
-            cmds += [gens.parse_cmd(1 + i, b"/g/f.conf", v, dl, cm, py, jn), "getall %d" % (1 + i)]
+            cmds += [gens.parse_cmd(1 + i, b"/g/f.conf", v, dl, pcm, py, jn), "getall %d" % (1 + i)]
         sc = Scenario(cmds, tags=("class" + grammar.cls(dl),))
         sc.npairs = 1 + len(variants)
         if variants and not py and not jn:
             # the same files as inputs of a merge: the file with the comment lines must act exactly like the one without
-            sc.cmds += [gens.parse_cmd(10, b"/g/h.conf", e["bytes"], dl, cm), "merge 19 0 10", "getall 19", "merge 20 0 1", "getall 20",
+            sc.cmds += [gens.parse_cmd(10, b"/g/h.conf", e["bytes"], dl, pcm), "merge 19 0 10", "getall 19", "merge 20 0 1", "getall 20",
                         "merge 21 1 0", "getall 21"]
             sc.obs += [True] * 7
             sc.merged = True
